@@ -176,6 +176,9 @@ type c09hist struct {
 	kinds  []string
 	failed bool
 	flags  map[string]bool
+	// databases handed to AppendDatabase earlier: the library may share their lists with h.db or
+	// copy them; either way an operation on h.db must not leave them ill-formed
+	donors []*signature.SignatureDatabase
 }
 
 func (h *c09hist) viol(key, what string) {
@@ -212,6 +215,18 @@ func (h *c09hist) checkState(op string) {
 			h.viol(op+"|"+kind, "list invariant broken: "+msg)
 			return
 		}
+	}
+	for _, d := range h.donors {
+		for _, l := range *d {
+			if len(l.Signatures) == 0 {
+				continue
+			}
+			if msg := listInvariants(l); msg != "" {
+				h.viol(op+"|donor-database-damaged", "a database appended earlier with AppendDatabase is left ill-formed by an operation on the receiving database: "+msg)
+				return
+			}
+		}
+		h.r.Count("donor_checks", 1)
 	}
 	var enc []byte
 	if p := tryP(func() { enc = h.db.Bytes() }); p != "" {
@@ -601,6 +616,7 @@ func (h *c09hist) step() {
 			other := signature.NewSignatureDatabase()
 			other.AppendList(sl)
 			h.db.AppendDatabase(other)
+			h.donors = append(h.donors, other)
 			h.r.Count("op_AppendDatabase", 1)
 		}
 		after := flatten(h.db)
